@@ -34,6 +34,9 @@ def main():
         meta["ran"]["demo_clean_exit"] = r0.returncode
         ap = sh(f"git -C {wt} apply {patch}")
         if ap.returncode:
+            ap = sh(f"git -C {wt} apply --3way {patch} && git -C {wt} reset -q")
+            meta["ran"]["applied_with"] = "git apply --3way (the tree moved on since the change was written)"
+        if ap.returncode:
             print("PATCH-DOES-NOT-APPLY", ap.stderr[:300]); return 3
         t = sh(f"{env} /venv/bin/python -m pytest -q -p no:cacheprovider 2>&1 | tail -1")
         meta["ran"]["tests"] = t.stdout.strip()
